@@ -72,10 +72,14 @@ impl InnerFunctionManager {
     }
 
     pub fn register(&mut self, name: &str, f: Arc<InnerFunction>) {
+        #[cfg(feature = "verif-hooks")]
+        crate::verif_hooks::probe("function:register");
         self.store.lock().unwrap().insert(name.to_string(), f);
     }
 
     pub fn get(&self, name: &str) -> Result<Arc<InnerFunction>> {
+        #[cfg(feature = "verif-hooks")]
+        crate::verif_hooks::probe("function:get");
         let binding = self.store.lock().unwrap();
         let ans = binding.get(name);
         if ans.is_none() {
